@@ -173,6 +173,7 @@ class Exec:
         self.down = False
         self.downthr = None
         self.ndrop = self.ndup = self.nearly = 0
+        self.rx_held = None
         w = sd.set_world(sd.World())
         ents = table_entries(sc)
         self.ents = ents
@@ -219,7 +220,9 @@ class Exec:
 
         def on_rx(pk):
             if pk.port == sv.PORT_PARAM and (pk.channel == 2 or (pk.channel == 3 and len(pk.data) >= 4 and pk.data[0] == 3)):
+                self.rx_held = pk           # taken from the in_queue, not yet dispatched
                 marker('obs.rx')
+                self.rx_held = None
                 self.ev.append(E('rx', **self.parse_reply(pk)))
         cf.packet_received.add_callback(on_rx)
 
@@ -529,7 +532,9 @@ class Exec:
                 'queue': [getattr(pk, '_x02_n', 0) for pk in list(upd.request_queue.queue)],
                 'inflight': bool(upd.wait_lock.locked()), 'link': link,
                 'chan': [(r['k'], r['p'], r['q']) for r in (self.parse_reply(pk) for pk in self.dev.replies)],
-                'inq': [(r['k'], r['p'], r['q']) for r in (self.parse_reply(pk) for pk in list(self.link0.in_queue.queue))],
+                'inq': [(r['k'], r['p'], r['q']) for r in (self.parse_reply(pk) for pk in
+                                                           ([self.rx_held] if self.rx_held is not None else []) +
+                                                           list(self.link0.in_queue.queue))],
                 'dval': [self.devq(i) for i in range(self.sc['np'])],
                 'dstored': [self.devq(i, 'stored') for i in range(self.sc['np'])],
                 'pendcb': bool(self.drec.pending is not None and self.drec.pending.kind == 'obs.cb'),
@@ -987,6 +992,12 @@ def _replay_job(job):
                 want = dict(st['obs'])
                 want['f'] = [dict(e) for e in want['f']]
                 ok = (not why) and pr == exp and got_ev == [want]
+                if name == 'Deliver' and st['link'] != 'up' and why.startswith('blocked-at-sleep'):
+                    # the design spec lets the dispatcher take what is in the in_queue of a closed link (it may
+                    # be waiting inside receive_packet); here its poll had timed out before: not realisable
+                    steps -= 1
+                    first = first or {'unrealisable': True}
+                    break
                 if ok:
                     matched += 1
                 elif first is None:
@@ -1128,3 +1139,90 @@ def corrupted_pf(traces):
     # a wake event removed: invisible to the property, but not to the design spec
     variant('drop-wake-event', lambda ev: ev.pop(next(i for i, e in enumerate(ev) if e['e'] == 'wake')), 'conform')
     return out
+
+
+# --------------------------------------------------------------------------- background TLC
+class _Bg:
+    """run fn(*args) in a forked process while the main process goes on"""
+    live = []
+
+    @classmethod
+    def cleanup(cls):
+        for b in cls.live:
+            if b.p.is_alive():
+                b.p.terminate()
+                b.p.join(5)
+        cls.live = []
+
+    def __init__(self, fn, *args):
+        import multiprocessing as mp
+        ctx = mp.get_context('fork')
+        self.rx, tx = ctx.Pipe(False)
+        self.p = ctx.Process(target=self._run, args=(tx, fn, args))
+        self.p.start()
+        tx.close()
+        _Bg.live.append(self)
+
+    @staticmethod
+    def _run(tx, fn, args):
+        try:
+            tx.send(('ok', fn(*args)))
+        except (common.MachineryError, tlc.TLCError) as e:
+            tx.send(('err', str(e)))
+        except Exception:
+            import traceback
+            tx.send(('err', traceback.format_exc()[-3000:]))
+        finally:
+            tx.close()
+
+    def get(self):
+        try:
+            kind, val = self.rx.recv()
+        except EOFError:
+            kind, val = 'err', 'background process died'
+        self.p.join()
+        if kind == 'err':
+            raise common.MachineryError(val)
+        return val
+
+
+def _design_checks(tier):
+    """exhaustive design-spec checks + every bug configuration (must be refuted), a few TLC runs at a time"""
+    from concurrent.futures import ThreadPoolExecutor
+    w = 4 if tier == 'quick' else 6
+    jobs = []
+    for c in PF_CHECKS[tier]:
+        jobs.append(('check', 'MC_ParamFile.tla', c, {'workers': w, 'timeout': 3000, 'coverage': tier == 'thorough'}))
+    for (b, _inv) in PF_BUGS:
+        jobs.append(('bug', 'MC_ParamFile.tla', 'MC_ParamFile_bug_%s.cfg' % b, {'workers': 2, 'timeout': 900}))
+    jobs += design_jobs_b(tier)
+    with ThreadPoolExecutor(max_workers=4) as ex:
+        return list(ex.map(_tlc_job, jobs))
+
+
+PF_CHECKS = {'quick': ['MC_ParamFile_quick.cfg', 'MC_ParamFile_fixed_quick.cfg', 'MC_ParamFile_nolinkloss_quick.cfg'],
+             'thorough': ['MC_ParamFile_thorough.cfg', 'MC_ParamFile_fixed_thorough.cfg', 'MC_ParamFile_nolinkloss_thorough.cfg']}
+
+
+def design_jobs_b(tier):
+    return []
+
+
+def _simulate(args):
+    spec, cfg, num, depth, seed = args
+    rs, behs = tlc.simulate(spec, cfg, num=num, depth=depth, seed=seed, timeout=1500, workers=1)
+    return rs.summary(), behs
+
+
+ASSUMPTIONS = [
+    'X02 is an extra specification (DESIGN 8(4)): the guarantees are stated by the builder from docstrings and evident intent, '
+    'conservatively (spec/ParamFileProps.tla header lists them and what is NOT demanded)',
+    'ParamFileHelper: the result for an empty file is not constrained (the code returns the stale flag of the previous call; '
+    'False on a new helper); unusable entries (unknown / read-only / non-persistent parameter, stored_value null) may raise instead of '
+    'returning False; a write request of a non-persistent parameter may be transmitted after the call raised',
+    'ParamFileHelper: a call that waits on a live link for a reply the environment never delivers is not a hang (the helper has no '
+    'timeout, the library retransmits for ever on a resending link); a call that stays blocked after the connection is gone IS (G5)',
+    'device: simdev parameter service [fw param_logic.c]: write reply echoes the value, store reply carries a status byte, a store '
+    'with non-zero status is not performed; values are multiples of 1/4 so that float <-> integer conversion is exact',
+    'one helper object is used by one thread at a time; one connection per execution (no reconnect)',
+]
